@@ -117,7 +117,14 @@ pub struct Pol {
     pub max_fee: u64,
     pub max_routing_fee: u64,
     pub mask: u64,
+    /// explicit ORDERED rules evaluated before the mask-derived ones: (idx, kind, action) with kind 0 = exact
+    /// rule on MASK_TAGS[idx], kind 1 = prefix rule on PREFIXES[idx]; action 0 = error, 1 = warn
+    pub rules: Vec<(u64, u64, u64)>,
 }
+
+/// prefixes of explicit prefix rules (same table as `prefixTable` in Drv/Policy.lean)
+pub const PREFIXES: [&str; 10] = ["policy-commitment-", "policy-mutual-", "policy-", "policy-channel-", "policy-commitment-htlc-",
+    "policy-commitment-fee", "", "policy-onchain-", "policy-revoke-", "policy-funding-"];
 
 impl Pol {
     pub fn default_testnet() -> Pol {
@@ -135,27 +142,80 @@ impl Pol {
             max_fee: p.max_feerate_per_kw as u64,
             max_routing_fee: p.max_routing_fee_msat,
             mask: 0,
+            rules: Vec::new(),
         }
     }
     pub fn line(&self) -> String {
-        format!(
+        let mut l = format!(
             "policy {} {} {} {} {} {} {} {} {} {} {} {}",
             self.onchain as u8, self.min_delay, self.max_delay, self.max_chan, self.eps, self.max_htlcs,
             self.max_htlc_value, self.use_chain as u8, self.min_fee, self.max_fee, self.max_routing_fee, self.mask
-        )
+        );
+        if !self.rules.is_empty() {
+            l += &format!(" {}", self.rules.len());
+            for (i, k, a) in &self.rules {
+                l += &format!(" {} {} {}", i, k, a);
+            }
+        }
+        l
+    }
+    /// the whole rule list in evaluation order: (tag, is_prefix, warn)
+    pub fn rule_list(&self) -> Vec<(String, bool, bool)> {
+        let mut rules: Vec<(String, bool, bool)> = Vec::new();
+        for (i, k, a) in &self.rules {
+            let tag = if *k == 0 { MASK_TAGS[*i as usize] } else { PREFIXES[*i as usize] };
+            rules.push((tag.to_string(), *k != 0, *a != 0));
+        }
+        if self.mask & (1 << BIT_PERMISSIVE) != 0 {
+            rules.push(("".to_string(), true, true));
+        }
+        if self.mask & (1 << BIT_NEAR_MISS) != 0 {
+            for t in NEAR_MISS_TAGS.iter() {
+                rules.push((t.to_string(), false, true));
+            }
+        }
+        for (k, t) in MASK_TAGS.iter().enumerate() {
+            if self.mask & (1 << k) != 0 {
+                rules.push((t.to_string(), false, true));
+            }
+        }
+        rules
     }
     pub fn parse(a: &[u64]) -> Option<Pol> {
-        if a.len() != 12 || a[1] > 65535 || a[2] > 65535 || a[8] > u32::MAX as u64 || a[9] > u32::MAX as u64 {
+        if a.len() < 12 || a[1] > 65535 || a[2] > 65535 || a[8] > u32::MAX as u64 || a[9] > u32::MAX as u64 {
             return None;
+        }
+        let mut rules = Vec::new();
+        if a.len() > 12 {
+            let k = a[12] as usize;
+            if a.len() != 13 + 3 * k {
+                return None;
+            }
+            for j in 0..k {
+                let (i, kind, act) = (a[13 + 3 * j], a[14 + 3 * j], a[15 + 3 * j]);
+                if kind > 1 || act > 1 || (kind == 0 && i as usize >= MASK_TAGS.len()) || (kind == 1 && i as usize >= PREFIXES.len()) {
+                    return None;
+                }
+                rules.push((i, kind, act));
+            }
         }
         Some(Pol {
             onchain: a[0] != 0, min_delay: a[1], max_delay: a[2], max_chan: a[3], eps: a[4], max_htlcs: a[5],
             max_htlc_value: a[6], use_chain: a[7] != 0, min_fee: a[8], max_fee: a[9], max_routing_fee: a[10], mask: a[11],
+            rules,
         })
     }
-    /// does the filter keep this tag an error?
+    /// does the filter keep this tag an error?  The oracle's OWN evaluation of the documented semantics: rules are
+    /// processed in order, the first match decides, no match = error (never the filter code under test)
     pub fn errs(&self, bit: u64) -> bool {
-        self.mask & (1 << BIT_PERMISSIVE) == 0 && self.mask & (1 << bit) == 0
+        let tag = MASK_TAGS[bit as usize];
+        for (t, is_prefix, warn) in self.rule_list() {
+            let hit = if is_prefix { tag.len() >= t.len() && &tag[..t.len()] == t.as_str() } else { tag == t };
+            if hit {
+                return !warn;
+            }
+        }
+        true
     }
     pub fn simple_policy(&self) -> SimplePolicy {
         let mut p = make_default_simple_policy(Network::Testnet);
@@ -169,20 +229,11 @@ impl Pol {
         p.min_feerate_per_kw = self.min_fee as u32;
         p.max_feerate_per_kw = self.max_fee as u32;
         p.max_routing_fee_msat = self.max_routing_fee;
-        let mut rules = Vec::new();
-        if self.mask & (1 << BIT_PERMISSIVE) != 0 {
-            rules.extend(PolicyFilter::new_permissive().rules);
-        }
-        if self.mask & (1 << BIT_NEAR_MISS) != 0 {
-            for t in NEAR_MISS_TAGS.iter() {
-                rules.push(FilterRule { tag: t.to_string(), is_prefix: false, action: FilterResult::Warn });
-            }
-        }
-        for (k, t) in MASK_TAGS.iter().enumerate() {
-            if self.mask & (1 << k) != 0 {
-                rules.push(FilterRule { tag: t.to_string(), is_prefix: false, action: FilterResult::Warn });
-            }
-        }
+        let rules: Vec<FilterRule> = self
+            .rule_list()
+            .into_iter()
+            .map(|(tag, is_prefix, warn)| FilterRule { tag, is_prefix, action: if warn { FilterResult::Warn } else { FilterResult::Error } })
+            .collect();
         p.filter = PolicyFilter { rules };
         p
     }
@@ -194,6 +245,35 @@ impl Pol {
             Arc::new(simple)
         }
     }
+}
+
+/// An ordered multi-rule filter whose rules OVERLAP on one of `bits`: exact-error before prefix-warn and the
+/// reverse, duplicate tags with different actions, prefix-error before exact-warn and the reverse, a narrow prefix
+/// before/after the catch-all; sometimes with an unrelated rule in front or behind.
+pub fn gen_overlap_rules(rng: &mut Rng, bits: &[u64]) -> Vec<(u64, u64, u64)> {
+    let t = *rng.pick(bits);
+    let tag = MASK_TAGS[t as usize];
+    let covering: Vec<u64> = (0..PREFIXES.len() as u64).filter(|i| tag.starts_with(PREFIXES[*i as usize])).collect();
+    let pfx = *rng.pick(&covering);
+    let narrow: Vec<u64> = covering.iter().cloned().filter(|i| !PREFIXES[*i as usize].is_empty()).collect();
+    let npfx = if narrow.is_empty() { pfx } else { *rng.pick(&narrow) };
+    let mut rules = match rng.below(10) {
+        0 => vec![(t, 0, 0), (pfx, 1, 1)],
+        1 => vec![(pfx, 1, 1), (t, 0, 0)],
+        2 => vec![(t, 0, 1), (t, 0, 0)],
+        3 => vec![(t, 0, 0), (t, 0, 1)],
+        4 => vec![(pfx, 1, 0), (t, 0, 1)],
+        5 => vec![(t, 0, 1), (pfx, 1, 0)],
+        6 => vec![(npfx, 1, 0), (6, 1, 1)],
+        7 => vec![(6, 1, 1), (t, 0, 0)],
+        8 => vec![(npfx, 1, 1), (npfx, 1, 0)],
+        _ => vec![(t, 0, 0), (npfx, 1, 1), (6, 1, 0)],
+    };
+    if rng.chance(1, 3) {
+        let extra = (rng.below(MASK_TAGS.len() as u64), 0, rng.below(2));
+        if rng.chance(1, 2) { rules.insert(0, extra) } else { rules.push(extra) }
+    }
+    rules
 }
 
 #[derive(Clone, Debug)]
@@ -1209,7 +1289,7 @@ impl World {
         };
         let (line, ok) = self.finish(r);
         if ok.is_some() {
-            self.monitor_commitment(idx, true, &cm, chain_before);
+            self.monitor_commitment(idx, true, &cm, chain_before, 0);
         }
         line
     }
@@ -1289,6 +1369,9 @@ impl World {
             _ => (dummy, vec![dummy; nh]),
         };
         let chain_before = self.chan.as_ref().unwrap().own_chain;
+        // the holder counter before the request (a counter of the state, not a decision): tells the retry path
+        // (n < next_holder) from a new commitment
+        let nh_before = node.with_channel(&cid, |c| Ok(c.enforcement_state.next_holder_commit_num)).unwrap_or(0);
         let decodable = self.buildable(&cm);
         let r = match (want_phase1 && decodable, phase1) {
             (true, Some((tx, wit))) => {
@@ -1308,7 +1391,7 @@ impl World {
         };
         let (line, ok) = self.finish(r);
         if ok.is_some() {
-            self.monitor_commitment(idx, false, &cm, chain_before);
+            self.monitor_commitment(idx, false, &cm, chain_before, nh_before);
         }
         line
     }
@@ -1345,7 +1428,7 @@ impl World {
     // ------------------------------------------------------------------------------------------
     // C05 monitor: WithinBounds, evaluated with u128 arithmetic on every accepted commitment
     // ------------------------------------------------------------------------------------------
-    fn monitor_commitment(&mut self, idx: usize, is_cp: bool, cm: &Commit, chain: (u64, u64, u64)) {
+    fn monitor_commitment(&mut self, idx: usize, is_cp: bool, cm: &Commit, chain: (u64, u64, u64), nh_before: u64) {
         let p = self.pol.clone();
         let sn = self.chan.as_ref().unwrap().setup.clone();
         // the monitor's own notion of "new": this number was never accepted before with identical content
@@ -1439,7 +1522,11 @@ impl World {
                 format!("counterparty commitment signed for channel value {} > max {}", sn.value, p.max_chan));
         }
         // --- on-chain validator: funding buried, not closed ---
-        if p.onchain && p.errs(BIT_ACTIVE_UTXO) && cm.n > 0 && is_new {
+        // Which tags keep "nothing new while unconfirmed / closed" in force: the gate's own tag; on the holder's retry
+        // path (n < next_holder, where the code skips the gate) new content is kept out by retry-same and
+        // holder-not-revoked, so the conjunct is only claimed when those are errors too
+        let gate_armed = p.errs(BIT_ACTIVE_UTXO) && (is_cp || cm.n >= nh_before || (p.errs(17) && p.errs(18)));
+        if p.onchain && gate_armed && cm.n > 0 && is_new {
             if chain.1 < 1 {
                 self.violation(idx, "accepted-onchain-unburied",
                     format!("new {} commitment {} accepted by the on-chain validator with funding depth {} (height {})", who, cm.n, chain.1, chain.0));
